@@ -34,6 +34,7 @@ func spellings(r *Rng, h string) string {
 // authenticated, skip-auth and preflight requests.
 func genC03(r *Rng) *Plan {
 	cfg := swarmConfig(r)
+	firstLine := r.Pick("theme=dark; sid=abc123", "lang=en-US", "tracking=1.2.3; theme=dark")
 	opts := map[string]any{"skip_auth_regex": []string{"^/public/.*", "^/health$"}}
 	groupsOn := r.Chance(1, 2)
 	if groupsOn {
@@ -77,7 +78,16 @@ func genC03(r *Rng) *Plan {
 			k := r.Range(1, 4)
 			sep := r.Pick("; ", ";", "; ")
 			parts := append([]string{}, others[:k]...)
-			switch r.Intn(5) {
+			switch r.Intn(8) {
+			case 5: // several Cookie header lines, the first one the same in every such request of this run: alone …
+				st.NoJar = true
+				st.CookieHdr = firstLine
+			case 6: // … followed by the session cookie on a line of its own …
+				st.NoJar = true
+				st.CookieHdr = firstLine + "||" + ProxyCookieName + "={{session}}"
+			case 7: // … or by per-request cookies and the session cookie
+				st.NoJar = true
+				st.CookieHdr = firstLine + "||app_sid=" + r.Pick("alice-1234", "bob-5678", "carol-9") + "; " + others[0] + "||" + ProxyCookieName + "={{session}}"
 			case 0: // jar supplies the session cookie first
 				st.CookieHdr = strings.Join(parts, sep)
 			case 1:
@@ -138,6 +148,22 @@ func genC06(r *Rng) *Plan {
 	}
 	variants := []string{"honest", "honest", "replay", "crossed", "crossed-state", "other-code", "state-equals-cookie", "cookie-as-state", "no-state", "no-cookie", "no-code",
 		"error-param", "foreign-state", "forged-state", "corrupt-state", "corrupt-cookie", "corrupt-code", "session-as-code", "junk-state"}
+	if len(p.Steps) == 2 && bB == "b2" && r.Chance(1, 2) {
+		// two callbacks in flight at once (the first one's redemption is still outstanding when the second
+		// arrives): each is judged on its own code, state and cookie
+		p.Gen = "callback+twin"
+		vB := r.Pick("honest", "honest", "corrupt-code", "no-code", "session-as-code", "other-code")
+		first := Step{Op: "pending", B: "b1", Name: "A", Sub: "honest", Str: "B", Follow: 1}
+		second := Step{Op: "pending", B: "b2", Name: "B", Sub: vB, Str: r.Pick("A", "flip", "random"), Arg: r.Intn(5000), Follow: 1}
+		if vB == "other-code" {
+			second.Str = "A"
+		}
+		if r.Chance(1, 3) {
+			first, second = second, first
+		}
+		first.Twin = &second
+		p.Steps = append(p.Steps, first)
+	}
 	n := r.Range(1, 4)
 	for i := 0; i < n; i++ {
 		v := variants[r.Intn(len(variants))]
@@ -284,6 +310,14 @@ func genC13(r *Rng) *Plan {
 		cfg.Routes = append(cfg.Routes, Route{Service: "exact", From: "foo.dyn.sso.sim", To: "exact.backend.sim", Backend: []string{"exact.backend.sim"},
 			Options: map[string]any{"allowed_email_addresses": []string{"bob@example.com"}}})
 	}
+	twinGroups := nSimple >= 2 && r.Chance(1, 5)
+	if twinGroups {
+		// two upstreams with different group rules; one user holds a session on each
+		cfg.CookieDomain = ""
+		cfg.Routes[0].Options = map[string]any{"allowed_groups": []string{"eng"}}
+		cfg.Routes[1].Options = map[string]any{"allowed_groups": []string{"all", "ops"}}
+		cfg.DefaultDomains = nil
+	}
 	ported := r.Chance(1, 2)
 	if ported {
 		// the same host name on another port is another upstream, with its own rules and backend
@@ -297,6 +331,21 @@ func genC13(r *Rng) *Plan {
 		// whatever was requested before
 		"FOO.DYN.SSO.SIM", "foo.DYN.sso.sim", "bar.dyn.SSO.sim", "FOO.X.SSO.SIM"}
 	users := []string{"alice@example.com", "bob@example.com", "carol@other.org"}
+	if twinGroups {
+		// … is then removed from one upstream's groups; both sessions come up for revalidation in overlapping
+		// requests: each is judged under its own upstream's rule
+		p.Gen += "+twin"
+		h1, h2 := cfg.Routes[0].From, cfg.Routes[1].From
+		p.Steps = append(p.Steps, Step{Op: "login", B: "t1", User: "alice@example.com", Host: h1, Target: "/"})
+		p.Steps = append(p.Steps, Step{Op: "login", B: "t1", User: "alice@example.com", Host: h2, Target: "/"})
+		p.Steps = append(p.Steps, Step{Op: "idp", Sub: "setgroups", User: "alice@example.com", Groups: []string{"eng"}})
+		fh, sh := h1, h2
+		if r.Chance(1, 3) {
+			fh, sh = h2, h1
+		}
+		p.Steps = append(p.Steps, Step{Op: "get", B: "t1", Host: fh, Target: "/", Dt: r.PickDur(cfg.ValidTTL+3*time.Second, cfg.TokenTTL+3*time.Second),
+			Twin: &Step{Op: "get", B: "t1", Host: sh, Target: "/"}})
+	}
 	n := r.Range(6, 20)
 	for i := 0; i < n; i++ {
 		h := hosts[r.Intn(len(hosts))]
